@@ -96,6 +96,17 @@ class Case:
         self.a = a
         self.mods = [a]
         self.place()
+        # object identifiers are unique (X.680): two loaded modules never carry the same one, and an
+        # import by identifier names exactly one of them (the generator draws them from a small pool)
+        seen = []
+        for k, m in enumerate(self.mods):
+            if m["oid"] is not None and m["oid"] in seen:
+                old = m["oid"]
+                m["oid"] = list(old) + [("u", 7000 + k)]
+                for mm in self.mods:
+                    mm["imports"] = [(w, f, (m["oid"] if (o == old and f == m["name"]) else o)) for w, f, o in mm["imports"]]
+            if m["oid"] is not None:
+                seen.append(m["oid"])
 
     def vr_item(self, nm):
         lit = self.values[nm]
